@@ -377,14 +377,32 @@ def replay(ctx, d):
     return o is not None
 
 
+def seastate_model(rng=None):
+    """a fitted two-variable virocon model (Weibull Hs, log-normal Tz conditional on Hs; Vanem & Bitner-Gregersen 2012,
+    the model of virocon's own contour tests), parameters varied a little when rng is given"""
+    from virocon import GlobalHierarchicalModel, WeibullDistribution, LogNormalDistribution, DependenceFunction
+    j = (lambda v, s=0.1: v * (1 + s * (rng.random() - 0.5))) if rng is not None else (lambda v, s=0.1: v)
+    a1, b1, c1 = j(0.1), j(1.489), j(0.1901)
+    a2, b2, c2 = j(0.04), j(0.1748), j(-0.2243)
+
+    def _power3(x, a=a1, b=b1, c=c1):
+        return a + b * x ** c
+
+    def _exp3(x, a=a2, b=b2, c=c2):
+        return a + b * np.exp(c * x)
+
+    bounds = [(0, None), (0, None), (None, None)]
+    d0 = {"distribution": WeibullDistribution(alpha=j(2.776), beta=j(1.471), gamma=j(0.8888))}
+    d1 = {"distribution": LogNormalDistribution(), "conditional_on": 0,
+          "parameters": {"mu": DependenceFunction(_power3, bounds), "sigma": DependenceFunction(_exp3, bounds)}}
+    return GlobalHierarchicalModel([d0, d1])
+
+
 def real_model_cases(ctx):
-    """a few runs with a real virocon model (sample drawn from it, its own marginal_icdf): oracle only"""
-    from virocon import GlobalHierarchicalModel
-    from virocon.predefined import get_OMAE2020_Hs_Tz, get_DNVGL_Hs_Tz
+    """a few runs with a real virocon model (sample drawn from it, its own Monte-Carlo marginal_icdf): oracle only"""
     out = []
     for k in range(ctx.n(2, 10)):
-        dd, _, _ = (get_OMAE2020_Hs_Tz if k % 2 == 0 else get_DNVGL_Hs_Tz)()
-        model = GlobalHierarchicalModel(dd)
+        model = seastate_model(ctx.rng if k else None)
         seed = ctx.rng.randrange(2 ** 31)
         smp = model.draw_sample(ctx.rng.choice([400, 1000, 3000]), random_state=seed)
         np.random.seed(seed % (2 ** 32))      # marginal_icdf of the conditional variable draws from the global generator
